@@ -374,8 +374,32 @@ func fsRun(lines []string) {
 		fmt.Fprintln(os.Stderr, "fs run: -impl mem|dir|gmem|gdir")
 		os.Exit(2)
 	}
+	if optKeep && fd.root != "" && len(lines) > 0 && lines[0] != "newfs" {
+		// a restarted process: same directory tree, no descriptors survive
+		d := filesys.NewDirFs(fd.root)
+		fd.dirf = &d
+		fd.fs = d
+		if fd.glob {
+			filesys.Fs = fd.fs
+		}
+		fd.fds = make([]filesys.File, optFdBase)
+		for i := range fd.fds {
+			fd.fds[i] = filesys.File(-1)
+		}
+	}
 	for _, l := range lines {
-		proto.Reply("%s", fd.one(strings.Fields(l)))
+		w := strings.Fields(l)
+		if w[0] == "atomicx" { // the disturbance is injected from outside (strace)
+			w = []string{"atomic", w[1], w[2], w[3]}
+		}
+		if w[0] == "restart" {
+			proto.Reply("ok")
+			continue
+		}
+		proto.Reply("%s", fd.one(w))
+	}
+	if optKeep {
+		return
 	}
 	if fd.root != "" {
 		if fd.dirf != nil {
